@@ -721,16 +721,30 @@ impl fmt::Display for PaddedStringDisplay<'_> {
         if excess > 0 && !self.truncate {
             return f.write_str(self.str);
         } else if excess > 0 {
+            // The window of columns (not bytes) to keep
             let (start, end) = match self.align {
-                Alignment::Left => (0, self.str.len() - excess),
-                Alignment::Right => (excess, self.str.len()),
-                Alignment::Center => (
-                    excess / 2,
-                    self.str.len() - excess.saturating_sub(excess / 2),
-                ),
+                Alignment::Left => (0, cols - excess),
+                Alignment::Right => (excess, cols),
+                Alignment::Center => (excess / 2, cols - excess.saturating_sub(excess / 2)),
             };
 
-            return f.write_str(self.str.get(start..end).unwrap_or(self.str));
+            // Keep the characters that lie entirely within the window; ANSI escape sequences
+            // take no columns and are always kept.
+            let mut col = 0;
+            for (s, is_ansi) in console::AnsiCodeIterator::new(self.str) {
+                if is_ansi {
+                    f.write_str(s)?;
+                    continue;
+                }
+                for c in s.chars() {
+                    let next = col + measure_text_width(c.encode_utf8(&mut [0; 4]));
+                    if col >= start && next <= end {
+                        f.write_char(c)?;
+                    }
+                    col = next;
+                }
+            }
+            return Ok(());
         }
 
         let diff = self.width.saturating_sub(cols);
